@@ -17,10 +17,11 @@ from harness.common import Failure, lean_run
 
 PROP_MODULES = ["ArmiVerif.Props.C14"]
 PARTIAL = ("block-level lookup theorem blocks_run_with_purge covers arbitrary histories (purges, either tracking "
-           "setting, stationary blocks changing hands between core/pool assemblies): every block present is found, nothing "
-           "else is; its only excluded point is a FRESH assembly carrying stationary blocks entering through dischargeSwap "
-           "(findings discharge-fresh-stationary-block-names / stale-block-key-returns-purged-block, characterised as "
-           "theorems of the name-level layer and compared with the real names on every run); "
+           "setting, stationary blocks changing hands between fresh / core / pool assemblies): every block present is "
+           "found, nothing else is; its preconditions: charged assemblies bring new distinct blocks, a fresh discharge "
+           "swap is not refused (a refused one leaves the fresh assembly's block names registered: transcribed, compared, "
+           "not covered by the theorem); the name-level theorems are general for the registration steps and witness-"
+           "level for the whole fresh discharge; "
            "the identity-level state machine identifies names with the objects they resolve to; renaming (renumber / makeUnique) "
            "is modelled in a separate name-level layer (nCoreAdd / nDischarge / nPurge) tied by name probes around fresh discharges; SFP cell coordinates, numMoves / lastLocationLabel bookkeeping and the "
            "symmetry-factor rescaling of volume-integrated parameters on moves are not modelled")
@@ -168,8 +169,9 @@ def oracle(w, fails, case, tag, fresh_stationary=False):
     if bmiss:
         # the one clause known to fail at the excluded point: with tracking ON the pooled outgoing assembly holds
         # the fresh assembly's exchanged stationary block under its never-registered name `B-<negative>-nnn`
-        narrow = fresh_stationary and w.track and all(n.startswith("B-") for n in bmiss)
-        key = "discharge-fresh-stationary-block-names" if narrow else "blocks-found-by-name"
+        # (before fix 2acbfbd a fresh discharge with stationary blocks failed here: discharge-fresh-stationary-block-names)
+        key = "discharge-fresh-stationary-block-names" if (fresh_stationary and all(n.startswith("B-") for n in bmiss)) \
+            else "blocks-found-by-name"
         fails.append(Failure(key, "every block in the core or the pool is found under its current name", case,
                              observed={"not found": bmiss[:4]}, note=tag))
     # (ii) a lookup never returns something that is neither in the core nor in the pool (purged objects)
@@ -258,10 +260,17 @@ def gen_op(w, rng, allow_fresh):
     if kind == "dsfp" and len(w.sfp) > 0:
         return ("dsfp", rng.choice(list(w.sfp)), rng.choice(kids))
     if kind == "dnew" and allow_fresh:
-        return ("dnew", fresh_assembly(w, rng), rng.choice(kids))
+        new = fresh_assembly(w, rng)
+        lay = [k for k, b in enumerate(new) if w.is_stat(b)]
+        same = [a for a in kids if [k for k, b in enumerate(a) if w.is_stat(b)] == lay]
+        # mostly a discharge the code accepts; sometimes one it refuses (different stationary positions)
+        out = rng.choice(same) if (same and rng.random() < 0.85) else rng.choice(kids)
+        return ("dnew", new, out)
     if kind == "remove" and len(kids) > 20:
         return ("remove", rng.choice(kids), rng.random() < 0.5)
     if kind == "add" and empty and allow_fresh:
+        if rng.random() < 0.2:      # Core.add at an occupied cell: refused, core unchanged (fix f30dfba)
+            return ("add", fresh_assembly(w, rng), cell_of(rng.choice(kids)))
         return ("add", fresh_assembly(w, rng), rng.choice(empty))
     a, b = rng.sample(kids, 2)
     return ("swap", a, b)
@@ -369,7 +378,7 @@ def run_sequence(ctx, track, stat, nops, seed, compare=True):
     w = World(track, stat)
     req, impl = [w.init_line()], [w.canon()]
     oracle(w, fails, case, "init")
-    allow_fresh = stat == "none"
+    allow_fresh = True
     for k in range(nops):
         op = gen_op(w, rng, allow_fresh)
         line = op_line(w, op)
@@ -384,6 +393,17 @@ def run_sequence(ctx, track, stat, nops, seed, compare=True):
         if exc is not None and op[0] == "cascade" and isinstance(exc, ValueError):
             # a cascade is a loop of swaps: the swaps before the refused one stay done
             impl.append(w.canon() + " raised")
+        elif exc is not None and op[0] == "dnew" and isinstance(exc, ValueError):
+            # the fresh assembly's block names were registered before the stationary-position test (fix 2acbfbd)
+            impl.append(w.canon() + " raised")
+            w.universe.pop(id(op[1]), None)
+        elif exc is not None and op[0] == "add" and isinstance(exc, ValueError):
+            impl.append(w.canon() + " raised")
+            w.universe.pop(id(op[1]), None)
+            if w.canon() != before:
+                fails.append(Failure("add-at-occupied-keeps-child", "a refused add leaves the core as it was", case,
+                                     observed=repr(exc)[:160], note=tag))
+                break
         elif exc is not None:
             impl.append("reject")
             if w.canon() != before:
